@@ -298,6 +298,11 @@ func runLifeMode(mode string, r *vlib.Rand, keys map[string]struct{}) {
 				}
 			}
 		}
+		for _, kind := range []string{"tcp", "tcp-reuseport", "tcp6", "udp", "rotate-second-busy"} {
+			if runStartBusyCase(kind, keys) {
+				n++
+			}
+		}
 		res.Eval(n)
 		res.Obs("failed_start_cases_reached", n)
 		res.Checkpoint()
@@ -339,6 +344,15 @@ func runLifeMode(mode string, r *vlib.Rand, keys map[string]struct{}) {
 			if (o.shutdownFrom == "OnTraffic" || o.shutdownFrom == "OnClose") && i%3 == 1 {
 				o.moment, o.npeers = "async-backlog", r.Pick(20, 40)
 			}
+			if o.shutdownFrom == "accept-error" {
+				// the loop that hits the error is an acceptor (reactor mode) or a loop with connections of its own
+				// (SO_REUSEPORT mode): both ways of ending on an error, alternately, with connections open
+				if c.ReusePort = (i/len(sources))%2 == 0; c.ReusePort && c.Net == "unix" {
+					c.Net = "tcp"
+				}
+				c.Rotate = false
+				o.npeers = r.Pick(20, 50)
+			}
 		case "c07":
 			c.Rotate = i%5 == 3
 			o.canaries = 3
@@ -346,6 +360,30 @@ func runLifeMode(mode string, r *vlib.Rand, keys map[string]struct{}) {
 			o.npeers = r.Pick(10, 30, 60)
 			if i%3 == 1 {
 				o.shutdownFrom = sources[r.Intn(len(sources))]
+			}
+			if i%7 == 4 {
+				// an event loop that ends on an error (accept4: EMFILE) still closes every connection it serves
+				o.shutdownFrom, o.moment = "accept-error", "idle"
+				if c.ReusePort = (i/7)%2 == 0; c.ReusePort && c.Net == "unix" {
+					c.Net = "tcp"
+				}
+				c.Rotate = false
+			}
+		}
+		if f := os.Getenv("VERIF_LIFE_FORCE"); f != "" { // debugging aid: "source=accept-error,reuseport,loops=1,moment=idle"
+			for _, kv := range strings.Split(f, ",") {
+				switch {
+				case strings.HasPrefix(kv, "source="):
+					o.shutdownFrom = kv[7:]
+				case strings.HasPrefix(kv, "moment="):
+					o.moment = kv[7:]
+				case kv == "reuseport":
+					c.ReusePort = c.Net != "unix"
+				case kv == "reactor":
+					c.ReusePort = false
+				case kv == "loops=1":
+					c.Loops = 1
+				}
 			}
 		}
 		if i%6 == 5 { // client engines: Dial/Enroll, connected UDP sockets, Client.Stop (every other one: Stop twice)
